@@ -72,12 +72,18 @@ func big(tag string) string { return "big-" + tag + "-" + strings.Repeat("x", 20
 
 const nOpKinds = 6 // kinds offered to the free choice; kind 6 (a record the destination refuses) is used in fixed plans only
 
-var opNames = []string{"root.Info", "child.Warn", "derive+Error", "below-threshold", "20KiB", "root.Infof", "refused-by-destination"}
+var opNames = []string{"root.Info", "child.Warn", "derive+Error", "below-threshold", "20KiB", "root.Infof", "refused-by-destination", "wide.WithGroup+Error", "wide.With+Warn", "wide.Info"}
 
 // doOp is the single call site of every logging operation (so that source positions agree
 // between the concurrent run and the run-alone reference).
-func doOp(root, child *logger.Logger, kind int, tag string) {
+func doOp(root, child, wide *logger.Logger, kind int, tag string) {
 	switch kind {
+	case 7: // derive from a shared non-root parent whose rendered attributes leave spare capacity, then log
+		wide.WithGroup("s"+tag).Error("w-"+tag, "x", 1)
+	case 8:
+		wide.With("q", tag).Warn("v-" + tag)
+	case 9:
+		wide.Info("u-"+tag, "y", 2)
 	case 0:
 		root.Info("m-"+tag, "k", tag, slog.Int("n", 1))
 	case 1:
@@ -97,11 +103,22 @@ func doOp(root, child *logger.Logger, kind int, tag string) {
 
 func derive(root *logger.Logger) *logger.Logger { return root.With("pre", 1).WithGroup("g") }
 
+// deriveWide: several attributes appended one by one, so that the parent's rendered bytes sit
+// in a backing array with room to spare (what two derivations from it could both write into)
+func deriveWide(root *logger.Logger) *logger.Logger {
+	args := []any{"p1", 1, "p2", 2, "p3", 3, "p4", 4, "p5", 5, "p6", 6}
+	return root.With(args[:2*wideAttrs]...)
+}
+
+// wideAttrs is how many attributes the shared parent carries in this execution (a free choice
+// in the shared-parent scenarios: how much room is left over depends on the rendered length)
+var wideAttrs = 3
+
 // alone returns the chunks the operation writes when performed alone on a fresh handler.
 func alone(handler, kind int, tag string) []string {
 	w := &sink{}
 	root := newRoot(handler, w)
-	doOp(root, derive(root), kind, tag)
+	doOp(root, derive(root), deriveWide(root), kind, tag)
 	return w.chunks
 }
 
@@ -115,11 +132,21 @@ func body(sc scen) func(c *vsched.Ctx) {
 		w := &sink{sched: true}
 		root := newRoot(sc.handler, w)
 		child := derive(root)
+		wideAttrs = 3
+		for _, ops := range sc.threads {
+			if ops[0] == -2 {
+				wideAttrs = 2 + vsched.Choose(5, "attributes-of-the-shared-parent")
+			}
+		}
+		wide := deriveWide(root)
 		type done struct{ thread, idx, kind int }
 		plan := make([][]int, len(sc.threads))
 		var desc []string
 		for ti, ops := range sc.threads {
 			for _, k := range ops {
+				if k == -2 {
+					k = 7 + vsched.Choose(3, "op-kind-on-shared-parent")
+				}
 				if k < 0 {
 					k = vsched.Choose(nOpKinds, "op-kind")
 				}
@@ -135,7 +162,7 @@ func body(sc scen) func(c *vsched.Ctx) {
 			ti := ti
 			vsched.GoNamed(fmt.Sprintf("logger%d", ti), func() {
 				for oi, k := range plan[ti] {
-					doOp(root, child, k, fmt.Sprintf("t%do%d", ti, oi))
+					doOp(root, child, wide, k, fmt.Sprintf("t%do%d", ti, oi))
 				}
 			})
 		}
@@ -227,6 +254,10 @@ func main() {
 				Quick: q22, Thorough: PS(16, 0, 1, -1), Body: body(scen{h, [][]int{{4, 3}, {2, 0}}}), MinOutcomes: 2},
 			sdrive.Scenario{Name: hn + "-after-write-error", Props: []string{"C02"}, About: "the destination refuses one record (Write returns an error); afterwards two goroutines log concurrently: their lines must be unaffected",
 				Quick: q22, Thorough: PS(16, 0, 1, -1), Body: body(scen{h, [][]int{{6, 0}, {1}}}), MinOutcomes: 2},
+			sdrive.Scenario{Name: hn + "-shared-parent", Props: []string{"C02"}, About: "two goroutines derive from one shared non-root parent (whose rendered attributes leave spare buffer capacity) and log, or log through it: every pair of WithGroup+log / With+log / log (free choice)",
+				Quick: any2x1, Thorough: PS(16, 0, 1, -1), Body: body(scen{h, [][]int{{-2}, {-2}}}), MinOutcomes: 9},
+			sdrive.Scenario{Name: hn + "-shared-parent-2x2", Props: []string{"C02"}, About: "as above, two operations each: derive+log twice against derive+log and a log through the parent",
+				Quick: q22, Thorough: PS(16, 0, 1, -1), Body: body(scen{h, [][]int{{7, 8}, {7, 9}}}), MinOutcomes: 2},
 			sdrive.Scenario{Name: hn + "-3x2", Props: []string{"C02"}, About: "three goroutines, two operations each",
 				Quick: q32, Thorough: PS(16, 0, 1, 2, 3, 4), Body: body(scen{h, [][]int{{0, 1}, {2, 5}, {1, 0}}}), MinOutcomes: 2},
 			sdrive.Scenario{Name: hn + "-3x3", Props: []string{"C02"}, About: "three goroutines, three operations each (thorough only beyond bound 1)",
